@@ -42,9 +42,9 @@ def build_any(rnd, d):
 
     if d == 0 or rnd.random() < 0.25:
         return E.ConstantExpression(rnd.choice([1, 2, 5, 0.5, -3])) if rnd.random() < 0.5 else E.VariableExpression(rnd.choice("xyz"))
-    k = rnd.choice(["add", "sub", "mul", "div", "pow", "neg", "sgn", "fact", "neg", "eq"])
-    if k in ("neg", "sgn", "fact"):
-        cls = {"neg": E.NegateExpression, "sgn": E.SgnExpression, "fact": E.FactorialExpression}[k]
+    k = rnd.choice(["add", "sub", "mul", "div", "pow", "neg", "sgn", "fact", "neg", "eq", "abs"])
+    if k in ("neg", "sgn", "fact", "abs"):
+        cls = {"neg": E.NegateExpression, "sgn": E.SgnExpression, "fact": E.FactorialExpression, "abs": E.AbsExpression}[k]
         child = E.ConstantExpression(rnd.choice([0, 3, 5])) if k == "fact" else build_any(rnd, d - 1)
         return cls(child, child_on_left=rnd.random() < 0.4)
     l = build_any(rnd, d - 1)
